@@ -173,6 +173,9 @@ def _run_one(cond, exclude_known=False):
             if kind == 'error' and 'when calling reach(' in text:
                 reached = True
             continue
+        if kind == 'error' and text.startswith(('NotDeterministic', 'CrossHairInternal')):
+            verdict, msg = INCONCLUSIVE, 'engine failure: ' + text[:200]
+            break
         if kind == 'error':
             verdict, msg = VIOLATED, text
             mc = _CALL.search(text)
